@@ -10,8 +10,8 @@ PROPS = {
     "C01": {
         "engine": "rwsim",
         "level": "exploration",
-        "quick_runs": 3000,
-        "thorough_runs": 60000,
+        "quick_runs": 20000,
+        "thorough_runs": 300000,
         "quick_wall": 240,
         "thorough_wall": 2400,
         "rule": "seeded scenarios (random module + 1-3 sessions of insert/replace/delete requests) executed against the real "
@@ -26,8 +26,8 @@ PROPS = {
     "C02": {
         "engine": "rwsim",
         "level": "exploration",
-        "quick_runs": 3000,
-        "thorough_runs": 60000,
+        "quick_runs": 20000,
+        "thorough_runs": 300000,
         "quick_wall": 240,
         "thorough_wall": 2400,
         "params": {"end_label_p": 0.45, "delblock_p": 0.3},
@@ -41,8 +41,8 @@ PROPS = {
 PROPS["C03"] = {
     "engine": "rwsim",
     "level": "exploration",
-    "quick_runs": 3000,
-    "thorough_runs": 60000,
+    "quick_runs": 20000,
+    "thorough_runs": 300000,
     "quick_wall": 240,
     "thorough_wall": 2400,
     "rule": "seeded scenarios (random module with per-instruction-consistent CFG + 1-3 sessions of edits with patches made of "
@@ -58,8 +58,8 @@ PROPS["C03"] = {
 PROPS["C04"] = {
     "engine": "rwsim",
     "level": "exploration",
-    "quick_runs": 3000,
-    "thorough_runs": 60000,
+    "quick_runs": 15000,
+    "thorough_runs": 225000,
     "quick_wall": 240,
     "thorough_wall": 2400,
     "params": {"annot_p": 0.4},
@@ -73,8 +73,8 @@ PROPS["C04"] = {
 PROPS["C05"] = {
     "engine": "rwsim",
     "level": "fault_enumeration",
-    "quick_runs": 4000,
-    "thorough_runs": 30000,
+    "quick_runs": 5000,
+    "thorough_runs": 75000,
     "quick_wall": 240,
     "thorough_wall": 2400,
     "params": {"annot_p": 0.2},
@@ -95,8 +95,8 @@ PROPS["C05"] = {
 PROPS["C06"] = {
     "engine": "rwsim",
     "level": "exploration",
-    "quick_runs": 3000,
-    "thorough_runs": 60000,
+    "quick_runs": 15000,
+    "thorough_runs": 225000,
     "quick_wall": 240,
     "thorough_wall": 2400,
     "params": {"delblock_p": 0.25, "insfn_p": 0.2},
@@ -110,8 +110,8 @@ PROPS["C06"] = {
 PROPS["C07"] = {
     "engine": "rwsim",
     "level": "exploration",
-    "quick_runs": 3000,
-    "thorough_runs": 60000,
+    "quick_runs": 15000,
+    "thorough_runs": 225000,
     "quick_wall": 240,
     "thorough_wall": 2400,
     "params": {"scope_session_p": 0.85, "main_p": 0.4},
@@ -131,8 +131,8 @@ PROPS["C07"] = {
 PROPS["C08"] = {
     "engine": "rwsim",
     "level": "exploration",
-    "quick_runs": 3000,
-    "thorough_runs": 60000,
+    "quick_runs": 15000,
+    "thorough_runs": 225000,
     "quick_wall": 240,
     "thorough_wall": 2400,
     "params": {"cfi_p": 1.0, "patch_cfi_p": 0.3, "isa": "x64", "fmt": "elf"},
@@ -152,8 +152,8 @@ PROPS["C08"] = {
 PROPS["C09"] = {
     "engine": "rwsim",
     "level": "exploration",
-    "quick_runs": 3000,
-    "thorough_runs": 60000,
+    "quick_runs": 10000,
+    "thorough_runs": 150000,
     "quick_wall": 240,
     "thorough_wall": 2400,
     "params": {"insfn_p": 0.0, "align_p": 0.0, "multi_unit": 0.1},
@@ -175,8 +175,8 @@ PROPS["C09"] = {
 PROPS["C10"] = {
     "engine": "rwsim",
     "level": "exploration",
-    "quick_runs": 2500,
-    "thorough_runs": 50000,
+    "quick_runs": 10000,
+    "thorough_runs": 150000,
     "quick_wall": 240,
     "thorough_wall": 2400,
     "params": {"align_p": 0.7, "exotic_p": 0.3, "empty_session_p": 0.15, "patch_align_p": 0.15},
@@ -195,8 +195,8 @@ PROPS["C10"] = {
 PROPS["C11"] = {
     "engine": "rwsim",
     "level": "exploration",
-    "quick_runs": 1500,
-    "thorough_runs": 30000,
+    "quick_runs": 3000,
+    "thorough_runs": 45000,
     "quick_wall": 300,
     "thorough_wall": 2400,
     "params": {"k": 4, "insfn_p": 0.05},
@@ -217,8 +217,8 @@ PROPS["C11"] = {
 PROPS["C18"] = {
     "engine": "rwsim",
     "level": "exploration",
-    "quick_runs": 3000,
-    "thorough_runs": 60000,
+    "quick_runs": 15000,
+    "thorough_runs": 225000,
     "quick_wall": 240,
     "thorough_wall": 2400,
     "params": {"retarget_p": 0.9, "fwd_p": 0.5, "cfi_p": 0.3, "insfn_p": 0.0, "isa_weights": [70, 30, 0]},
@@ -235,8 +235,8 @@ PROPS["C18"] = {
 PROPS["C19"] = {
     "engine": "rwsim",
     "level": "exploration",
-    "quick_runs": 3000,
-    "thorough_runs": 60000,
+    "quick_runs": 12000,
+    "thorough_runs": 180000,
     "quick_wall": 240,
     "thorough_wall": 2400,
     "params": {"delsym_p": 0.9, "symtabs_p": 0.9, "fwd_p": 0.6, "cfi_p": 0.4, "insfn_p": 0.0},
@@ -253,7 +253,7 @@ PROPS["C19"] = {
 PROPS["C13"] = {
     "engine": "rwsim",
     "level": "exploration",
-    "quick_runs": 6000,
+    "quick_runs": 8000,
     "thorough_runs": 120000,
     "quick_wall": 240,
     "thorough_wall": 2400,
